@@ -34,6 +34,7 @@ Proof.
   - rewrite ttoks_group. eexists _, _. split; reflexivity.
   - rewrite (ttoks_binary (ECond neg e1 e2) _ _ _ eq_refl). destruct (IHe1 ltac:(assumption)) as (t & r & -> & Ht). eexists _, _. split; [reflexivity|exact Ht].
   - rewrite (ttoks_binary (EElse e1 e2) _ _ _ eq_refl). destruct (IHe1 ltac:(assumption)) as (t & r & -> & Ht). eexists _, _. split; [reflexivity|exact Ht].
+  - rewrite ttoks_nested. eexists _, _. split; reflexivity.
 Qed.
 
 Lemma ttoks_last lvl : forall e, efrag lvl e = true -> exists r t, ttoks e = r ++ [t] /\ is_trim t = false.
@@ -65,6 +66,8 @@ Proof.
     exists (ttoks e1 ++ W :: cond_tt neg :: W :: r), t. split; [rewrite <- app_assoc; reflexivity|exact Ht].
   - rewrite (ttoks_binary (EElse e1 e2) _ _ _ eq_refl). destruct (IHe2 ltac:(assumption)) as (r & t & -> & Ht).
     exists (ttoks e1 ++ W :: TT_ElseJump :: W :: r), t. split; [rewrite <- app_assoc; reflexivity|exact Ht].
+  - rewrite ttoks_nested. exists (TT_StartExpression :: W :: ttoks e ++ [W]), TT_EndExpression.
+    split; [cbn [app]; rewrite <- app_assoc; reflexivity|reflexivity].
 Qed.
 
 Lemma trim_printed lvl e : efrag lvl e = true -> trim_tokens (ttoks e) = (0, ttoks e).
@@ -201,6 +204,7 @@ Proof.
   - constructor; [exact I|]. apply Forall_app. split; [apply IHe; exact F|constructor; [exact I|constructor]].
   - apply Forall_app. split; [apply IHe1; assumption|constructor; [exact I|apply IHe2; assumption]].
   - apply Forall_app. split; [apply IHe1; assumption|constructor; [exact I|apply IHe2; assumption]].
+  - constructor; [exact I|]. apply Forall_app. split; [apply IHe; assumption|constructor; [exact I|constructor]].
 Qed.
 
 (* ---- where identifiers and properties may stand ---- *)
@@ -213,10 +217,14 @@ Fixpoint acc_ok (fl : bool) (e : expr) : bool :=
   | ELit _ | EValue => true
   | EUn o x => if is_prefix o then acc_ok (is_access (hdef e)) x else acc_ok fl x
   | EGroup x => acc_ok false x
+  | ENested _ b => acc_ok false b
   | EBin _ l r | EAnd l r | EOr l r | EList _ l r | ECond _ l r | EElse l r =>
       acc_ok fl l && acc_ok (is_access (hdef e)) r
   | _ => true
   end.
+
+Lemma wf_true_false lvl e : efrag lvl e = true -> wf true e = true -> wf false e = true.
+Proof. destruct e; intros F H; try discriminate F; exact H. Qed.
 
 Lemma wf_acc_ok lvl : forall e, efrag lvl e = true -> wf false e = true -> paren_ok e = true -> acc_ok false e = true.
 Proof.
@@ -247,6 +255,8 @@ Proof.
     + discriminate Wf.
     + cbn [wf] in Wf. apply andb_true_iff in Wf. destruct Wf as [W1 W2].
       cbn [acc_ok]. rewrite (IHe1 F W1 P1). cbn [andb]. apply (IHe2 G W2 P2).
+    + cbn [wf] in Wf. apply andb_true_iff in Wf. destruct Wf as [W1 W2].
+      cbn [acc_ok]. rewrite (IHe1 F W1 P1). cbn [andb]. apply (IHe2 G W2 P2).
   - destruct (paren_ok_binary (EAnd e1 e2) _ _ _ eq_refl P) as [P1 P2].
     cbn [wf] in Wf. apply andb_true_iff in Wf. destruct Wf as [W1 W2]. cbn [acc_ok].
     change (is_access (hdef (EAnd e1 e2))) with false. rewrite IHe1, IHe2; auto.
@@ -264,6 +274,7 @@ Proof.
   - destruct (paren_ok_binary (EElse e1 e2) _ _ _ eq_refl P) as [P1 P2].
     cbn [wf] in Wf. repeat (apply andb_true_iff in Wf; let W := fresh "W" in destruct Wf as [Wf W]). cbn [acc_ok].
     change (is_access (hdef (EElse e1 e2))) with false. rewrite IHe1, IHe2; auto.
+  - cbn [wf] in Wf. cbn [acc_ok]. apply IHe; [assumption|eapply wf_true_false; eauto|exact (paren_ok_nested _ _ P)].
 Qed.
 
 (* ---- from the erased tree and the invariant to the correspondence ---- *)
@@ -315,6 +326,9 @@ Proof.
   - cbn [rtree_of_expr rep acc_ok] in *. apply andb_true_iff in A. destruct A as [A1 A2].
     destruct T as [| | |i d k tl tr|]; try discriminate E. cbn [erase] in E. injection E as Ed Ek El Er. destruct Pf as [Pl Pr].
     subst d. split; [reflexivity|]. split; [exact Ek|]. split; [eapply IHe1; eauto|eapply IHe2; eauto].
+  - cbn [rtree_of_expr rep acc_ok] in *.
+    destruct T as [| | | |b i k a]; try discriminate E. cbn [erase] in E. injection E as Eb Ek Ea. subst b. cbn [pfix] in Pf.
+    split; [exact Ek|]. eapply IHe; eauto.
 Qed.
 
 (* ---- the parser model on the printed tokens ---- *)
